@@ -147,6 +147,7 @@ pub fn hk_count_active(connections: &[SrtlaConnection], current_ms: u64) -> (r: 
                                 'pre.len() == connections.len()', 'hk_wf(pre)',
                                 'forall|j: int| i_nx <= j < connections.len() ==> #[trigger] connections[j] == pre[j]',
                                 C('C08.hk.torn_down_only_when_timed_out_and_a_retry_is_due', 'forall|j: int| 0 <= j < i_nx && !retry_due(&pre[j], now_ms) ==> link_kept(&pre[j], &#[trigger] connections[j])'),
+                                C('C06+C08.hk.every_link_whose_retry_is_due_restarts_with_clean_accounting', 'forall|j: int| 0 <= j < i_nx && retry_due(&pre[j], now_ms) ==> (#[trigger] connections[j]).window == 20000 && connections[j].in_flight_packets == 0 && connections[j].packet_log@.len() == 0 && !connections[j].connected && connections[j].phase is Registering'),
                                 C('C06+C10.hk.classic_mode_never_applies_time_based_recovery', 'classic ==> forall|j: int| 0 <= j < i_nx ==> (#[trigger] connections[j]).window == pre[j].window || (retry_due(&pre[j], now_ms) && connections[j].window == 20000)'),
                                 C('C14.hk.keepalive_sent_on_every_live_link_when_due', 'forall|j: int| 0 <= j < i_nx && keepalive_due(&pre[j], now_ms) ==> (#[trigger] connections[j]).last_keepalive_sent == Some(now_ms)'),
                                 ],
@@ -166,6 +167,7 @@ pub fn hk_count_active(connections: &[SrtlaConnection], current_ms: u64) -> (r: 
                         }''', 'before'),
                    ('reg.update_active_connections(connections);', '''proof {
         assert(forall|j: int| 0 <= j < pre.len() && !retry_due(&pre[j], now_ms) ==> link_kept(&pre[j], &#[trigger] connections[j]));  // @ob C08.hk.torn_down_only_when_timed_out_and_a_retry_is_due
+        assert(forall|j: int| 0 <= j < pre.len() && retry_due(&pre[j], now_ms) ==> (#[trigger] connections[j]).window == 20000 && connections[j].in_flight_packets == 0 && connections[j].packet_log@.len() == 0 && !connections[j].connected && connections[j].phase is Registering);  // @ob C06+C08.hk.every_link_whose_retry_is_due_restarts_with_clean_accounting
         assert(classic ==> forall|j: int| 0 <= j < pre.len() ==> (#[trigger] connections[j]).window == pre[j].window || (retry_due(&pre[j], now_ms) && connections[j].window == 20000));  // @ob C06+C10.hk.classic_mode_never_applies_time_based_recovery
         assert(forall|j: int| 0 <= j < pre.len() && keepalive_due(&pre[j], now_ms) ==> (#[trigger] connections[j]).last_keepalive_sent == Some(now_ms));  // @ob C14.hk.keepalive_sent_on_every_live_link_when_due
     }''', 'before'),
